@@ -366,7 +366,9 @@ impl Runtime {
                     return Event::Errors(Arc::clone(&self.listing.direct_errors));
                 }
             }
-            State::Inkey | State::RuntimeError(_) => {}
+            // still waiting for the key, e.g. after an interrupt and CONT
+            State::Inkey => return Event::Inkey,
+            State::RuntimeError(_) => {}
         }
         if let State::RuntimeError(_) = self.state {
             if self.print_col > 0 {
